@@ -316,6 +316,8 @@ impl Variant {
         }
     }
 
+    /// Divides two numbers. A LONG does not fit a SINGLE, so the division of whole numbers
+    /// is done in double precision when a LONG is involved.
     pub fn divide(self, other: Self) -> Result<Self, VariantError> {
         match self {
             Self::VSingle(f_left) => match other {
@@ -336,14 +338,14 @@ impl Variant {
                 Self::VSingle(f_right) => div!(i_left, f_right, f32),
                 Self::VDouble(d_right) => div!(i_left, d_right, f64),
                 Self::VInteger(i_right) => div!(i_left, i_right, f32),
-                Self::VLong(l_right) => div!(i_left, l_right, f32),
+                Self::VLong(l_right) => div!(i_left, l_right, f64),
                 _ => Err(VariantError::TypeMismatch),
             },
             Self::VLong(l_left) => match other {
                 Self::VSingle(f_right) => div!(l_left, f_right, f32),
                 Self::VDouble(d_right) => div!(l_left, d_right, f64),
-                Self::VInteger(i_right) => div!(l_left, i_right, f32),
-                Self::VLong(l_right) => div!(l_left, l_right, f32),
+                Self::VInteger(i_right) => div!(l_left, i_right, f64),
+                Self::VLong(l_right) => div!(l_left, l_right, f64),
                 _ => Err(VariantError::TypeMismatch),
             },
             _ => Err(VariantError::TypeMismatch),
